@@ -1,6 +1,7 @@
 package consul
 
 import (
+	"bytes"
 	"fmt"
 	"log"
 	"net"
@@ -9,6 +10,7 @@ import (
 	"strconv"
 	"strings"
 
+	"github.com/fabiolb/fabio/route"
 	"github.com/hashicorp/consul/api"
 )
 
@@ -94,16 +96,60 @@ func (r routecmd) build() []string {
 				cfg += " weight " + weight
 			}
 			if len(svctags) > 0 {
-				cfg += " tags " + strconv.Quote(strings.Join(svctags, ","))
+				cfg += " tags \"" + strings.Join(svctags, ",") + "\""
 			}
 			if len(ropts) > 0 {
-				cfg += " opts " + strconv.Quote(strings.Join(ropts, " "))
+				cfg += " opts \"" + strings.Join(ropts, " ") + "\""
+			}
+
+			// The commands of all services are parsed as one text and a single
+			// invalid command makes fabio reject all of them. Drop a registration
+			// which cannot be expressed in the command language on its own.
+			if !expressible(cfg, name, route, dst, svctags, ropts) {
+				log.Printf("[WARN] consul: Skipping route %q of service %q since it cannot be expressed as a route command", tag, name)
+				continue
 			}
 
 			config = append(config, cfg)
 		}
 	}
 	return config
+}
+
+// expressible returns true if the route command is accepted by the route
+// parser and the table builder and denotes what was registered.
+func expressible(cfg, name, src, dst string, tags, opts []string) bool {
+	defs, err := route.Parse(bytes.NewBufferString(cfg))
+	if err != nil || len(defs) != 1 {
+		return false
+	}
+	d := defs[0]
+	if d.Cmd != route.RouteAddCmd || d.Service != name || d.Src != src || d.Dst != dst {
+		return false
+	}
+	if len(d.Tags) != len(tags) {
+		return false
+	}
+	for i := range tags {
+		if d.Tags[i] != tags[i] {
+			return false
+		}
+	}
+	want := map[string]string{}
+	for _, o := range opts {
+		k, v, _ := strings.Cut(o, "=")
+		want[k] = v
+	}
+	if len(d.Opts) != len(want) {
+		return false
+	}
+	for k, v := range want {
+		if got, ok := d.Opts[k]; !ok || got != v {
+			return false
+		}
+	}
+	_, err = route.NewTable(bytes.NewBufferString(cfg))
+	return err == nil
 }
 
 // parseURLPrefixTag expects an input in the form of 'tag-host/path[ opts]'
